@@ -1,2 +1,440 @@
-From FJ Require Import Lib.Base Lib.Bytes Spec.ImageSpec Model.Fjm.
-Local Open Scope N_scope.
+From FJ Require Import Lib.Base Lib.Bytes Spec.ImageSpec Model.Fjm Proofs.FjmCodec Proofs.FjmReader Proofs.FjmWriter.
+(* C06 / C10: the theorems about Model/Fjm.v, assembled from the codec, reader and writer lemmas. *)
+Local Open Scope Z_scope.
+
+(* ---- the declared image of a call sequence, from the invariant's table and logical pool ------------------ *)
+
+Definition lseg_of (P : list Z) (t : tseg) : lseg :=
+  let '(ss, sl, ds, dl) := t in
+  mklseg ss sl (firstn (N.to_nat dl) (skipn (N.to_nat ds) (map Z.to_N P))).
+
+Lemma zs_to_ns_nonneg l : Forall (fun x => 0 <= x) l -> zs_to_ns l = Some (map Z.to_N l).
+Proof.
+  induction 1 as [|x l Hx _ IH]; [reflexivity|].
+  cbn [zs_to_ns map]. replace (x <? 0) with false by (symmetry; lia). now rewrite IH.
+Qed.
+
+Section Exec.
+Variable c : wcfg.
+Hypothesis Hc : cfg_valid c = true.
+
+Lemma exec_inv : forall ops st T P res st',
+  Inv c st T P -> exec c ops st = (res, Some st') ->
+  exists T' P', Inv c st' (T ++ T') (P ++ P') /\
+                logical ops res (map Z.to_N P) = Some (map (lseg_of (P ++ P')) T').
+Proof.
+  induction ops as [|op ops IH]; intros st T P res st' I E.
+  - cbn in E. injection E as <- <-. exists [], []. rewrite !app_nil_r. split; [exact I | reflexivity].
+  - cbn [exec] in E. destruct (apply_op c st op) as [st1 ret| |e] eqn:Eop.
+    + destruct (exec c ops st1) as [l f] eqn:Er. injection E as <- ->.
+      destruct op as [ld | s l0 ds dl]; cbn [apply_op] in Eop.
+      * (* add_data *)
+        unfold add_data in Eop. destruct (forallb (word_ok (c_w c)) ld) eqn:Ew; [|discriminate].
+        cbn [negb] in Eop. injection Eop as <- _.
+        pose proof (inv_add_data c st T P ld I Ew) as I1.
+        destruct (IH _ _ _ _ _ I1 Er) as (T' & P'' & I2 & HL).
+        exists T', (ld ++ P''). rewrite app_assoc. split; [exact I2|].
+        cbn [logical fst]. change (negb (0 =? 0)%N) with false. cbv iota.
+        rewrite zs_to_ns_nonneg.
+        2:{ apply Forall_forall. intros x Hx. rewrite forallb_forall in Ew. specialize (Ew x Hx). unfold word_ok in Ew. lia. }
+        rewrite <- map_app. exact HL.
+      * (* add_segment *)
+        destruct (add_segment_inv c Hc st T P s l0 ds dl st1 ret I Eop) as (Hs & Hl & Hds & Hdl & Hr & I1).
+        destruct (IH _ _ _ _ _ I1 Er) as (T' & P' & I2 & HL).
+        exists ((Z.to_N s, Z.to_N l0, Z.to_N ds, Z.to_N dl) :: T'), P'.
+        rewrite <- app_assoc in I2. split; [exact I2|].
+        cbn [logical fst]. change (negb (0 =? 0)%N) with false. cbv iota.
+        rewrite map_length.
+        replace ((s <? 0) || (l0 <? 0) || (ds <? 0) || (dl <? 0) || (Z.of_nat (length P) <? ds + dl)) with false
+          by (symmetry; lia).
+        rewrite HL. cbn [map lseg_of]. f_equal. f_equal. f_equal.
+        rewrite map_app, firstn_skipn_app by (rewrite map_length; lia).
+        now rewrite !Z_N_nat.
+    + destruct (exec c ops st) as [l f] eqn:Er. injection E as <- ->.
+      destruct (IH _ _ _ _ _ I Er) as (T' & P' & I2 & HL).
+      exists T', P'. split; [exact I2|]. cbn [logical fst]. exact HL.
+    + discriminate.
+Qed.
+
+(* no call sequence makes the Writer raise anything but its own error *)
+Lemma exec_no_raw : forall ops st T P, Inv c st T P -> snd (exec c ops st) <> None.
+Proof.
+  induction ops as [|op ops IH]; intros st T P I; [discriminate|].
+  cbn [exec]. destruct (apply_op c st op) as [st1 ret| |e] eqn:Eop.
+  - destruct (exec c ops st1) as [l f] eqn:Er. cbn [snd].
+    destruct op as [ld | s l0 ds dl]; cbn [apply_op] in Eop.
+    + unfold add_data in Eop. destruct (forallb (word_ok (c_w c)) ld) eqn:Ew; [|discriminate].
+      cbn [negb] in Eop. injection Eop as <- _.
+      pose proof (IH _ _ _ (inv_add_data c st T P ld I Ew)) as H. now rewrite Er in H.
+    + destruct (add_segment_inv c Hc st T P s l0 ds dl st1 ret I Eop) as (_ & _ & _ & _ & _ & I1).
+      pose proof (IH _ _ _ I1) as H. now rewrite Er in H.
+  - destruct (exec c ops st) as [l f] eqn:Er. cbn [snd].
+    pose proof (IH _ _ _ I) as H. now rewrite Er in H.
+  - exfalso. destruct op as [ld | s l0 ds dl]; cbn [apply_op] in Eop.
+    + unfold add_data in Eop. destruct (negb (forallb (word_ok (c_w c)) ld)); discriminate.
+    + eapply (add_segment_no_raw c); eassumption.
+Qed.
+
+End Exec.
+
+(* ---- relative jumps: the reader's re-basing undoes the writer's ------------------------------------------- *)
+
+Lemma rel_cancel (w p : Z) (k : N) :
+  0 <= w -> 0 <= p < 2 ^ w ->
+  rel_dec (Z.to_N w) k (Z.to_N ((p - Z.of_N k * w) mod 2 ^ w)) = Z.to_N p.
+Proof.
+  intros Hw Hp. unfold rel_dec. rewrite N.land_ones.
+  assert (Hpow : 0 < 2 ^ w) by (apply Z.pow_pos_nonneg; lia).
+  apply N2Z.inj. rewrite N2Z.inj_mod, N2Z.inj_add, N2Z.inj_mul, N2Z.inj_pow.
+  rewrite !Z2N.id; try lia.
+  change (Z.of_N 2) with 2.
+  rewrite Zplus_mod_idemp_l.
+  replace (p - Z.of_N k * w + Z.of_N k * w) with p by lia.
+  apply Z.mod_small. exact Hp.
+Qed.
+
+(* ---- what write produces, and what read makes of it -------------------------------------------------------- *)
+
+Section Roundtrip.
+Variable compress : bytes -> option bytes.
+Variable decompress : bytes -> option bytes.
+Hypothesis lzma_roundtrip : forall x z, compress x = Some z -> decompress z = Some x.
+Variable c : wcfg.
+Hypothesis Hc : cfg_valid c = true.
+
+Let wN := Z.to_N (c_w c).
+Let verN := Z.to_N (c_ver c).
+Let flagsN := Z.to_N (c_flags c).
+
+Definition file_header (n : nat) : bytes :=
+  le_enc 2 FJ_MAGIC ++ le_enc 2 wN ++ le_enc 8 verN ++ le_enc 8 (N.of_nat n).
+Definition file_ext : bytes := if c_ver c =? 0 then [] else le_enc 8 flagsN ++ le_enc 4 0%N.
+
+Lemma cfg_facts :
+  supported_width wN = true /\ 0 <= c_w c < 65536 /\ 0 <= c_ver c <= 3 /\ 0 <= c_flags c < 2 ^ 64.
+Proof.
+  pose proof Hc as V. unfold cfg_valid in V. repeat (apply andb_prop in V; destruct V as [V ?]).
+  pose proof (cfg_w_cases c Hc). repeat split; try lia. exact H5.
+Qed.
+
+Lemma inv_u64 st T P : Inv c st T P -> fits_u64 st = true -> Forall tseg_u64 T.
+Proof.
+  intros I F. apply Forall_forall. intros [[[ss sl] ds] dl] Hin.
+  destruct I. destruct (entry_range c _ _ _ _ _ _ inv_entries Hin) as [(? & ? & ?) _].
+  rewrite Forall_forall in inv_end. specialize (inv_end _ Hin). cbn in inv_end.
+  unfold fits_u64 in F. apply andb_prop in F. destruct F as [F1 F2].
+  unfold tseg_u64. change (2 ^ 64)%N with 18446744073709551616%N in *.
+  change (2 ^ 64) with 18446744073709551616 in *. lia.
+Qed.
+
+Lemma write_spec st T P :
+  Inv c st T P -> fits_u64 st = true ->
+  exists wb, word_bytes wN = Some wb /\ (1 <= wb)%nat /\ (256 ^ N.of_nat wb = 2 ^ wN)%N /\
+    match write compress c st with
+    | WOk f => exists payload,
+        f = file_header (length T) ++ file_ext ++ enc_table T ++ payload /\
+        (if c_ver c =? 3 then compress (enc_words wb (ws_data st)) = Some payload
+         else payload = enc_words wb (ws_data st))
+    | WLib => c_ver c = 3 /\ compress (enc_words wb (ws_data st)) = None
+    | WRaw _ _ => False
+    end.
+Proof.
+  intros I F. destruct cfg_facts as (Hsw & Hw & Hver & Hfl).
+  destruct (word_bytes_supported wN Hsw) as (wb & Ewb & Hwb & Hpow & _).
+  exists wb. split; [exact Ewb|]. split; [exact Hwb|]. split; [exact Hpow|].
+  pose proof (inv_u64 st T P I F) as Hu.
+  unfold write. fold wN. rewrite Ewb.
+  rewrite (pack_u_N 2 FJ_MAGIC) by reflexivity.
+  rewrite (pack_u_Z 2 (c_w c)) by (change (256 ^ Z.of_nat 2) with 65536; lia).
+  rewrite (pack_u_Z 8 (c_ver c)) by (change (256 ^ Z.of_nat 8) with 18446744073709551616; lia).
+  destruct I.
+  assert (Hlen : length (ws_segs st) = length T) by (rewrite inv_segs; apply map_length).
+  unfold fits_u64 in F. apply andb_prop in F. destruct F as [F1 F2].
+  rewrite (pack_u_Z 8 (Z.of_nat (length (ws_segs st))))
+    by (change (256 ^ Z.of_nat 8) with (2 ^ 64); lia).
+  rewrite Hlen. replace (Z.to_N (Z.of_nat (length T))) with (N.of_nat (length T)) by lia.
+  assert (Eext : (if c_ver c =? 0 then Some []
+                  else match pack_u 8 (c_flags c), pack_u 4 0 with
+                       | Some x, Some y => Some (x ++ y) | _, _ => None end) = Some file_ext).
+  { unfold file_ext. destruct (c_ver c =? 0); [reflexivity|].
+    rewrite (pack_u_Z 8 (c_flags c)) by (change (256 ^ Z.of_nat 8) with (2 ^ 64); lia).
+    rewrite (pack_u_Z 4 0) by (change (256 ^ Z.of_nat 4) with 4294967296; lia). reflexivity. }
+  rewrite Eext. rewrite inv_segs, pack_segs_enc by exact Hu. cbn [negb].
+  rewrite (pack_words_enc wb (ws_data st)).
+  2:{ eapply Forall_impl; [|exact inv_D]. intros x Hx. unfold word_in in Hx.
+      replace (256 ^ Z.of_nat wb) with (2 ^ c_w c); [exact Hx|].
+      apply (f_equal Z.of_N) in Hpow. rewrite !N2Z.inj_pow, nat_N_Z in Hpow. unfold wN in Hpow.
+      rewrite Z2N.id in Hpow by lia. symmetry. exact Hpow. }
+  destruct (c_ver c =? 3) eqn:E3.
+  - destruct (compress (enc_words wb (ws_data st))) as [z|] eqn:Ez.
+    + exists z. split; [reflexivity | reflexivity].
+    + split; [lia | reflexivity].
+  - eexists. split; reflexivity.
+Qed.
+
+Lemma find_map_lseg P x T :
+  find (in_lseg x) (map (lseg_of P) T) = option_map (lseg_of P) (find (in_tseg x) T).
+Proof.
+  induction T as [|t T IH]; [reflexivity|]. cbn [map find].
+  replace (in_lseg x (lseg_of P t)) with (in_tseg x t) by (destruct t as [[[ss sl] ds] dl]; reflexivity).
+  destruct (in_tseg x t); [reflexivity | exact IH].
+Qed.
+
+Lemma is_rel_N : is_rel c = ((verN =? 2) || (verN =? 3))%N.
+Proof. destruct cfg_facts as (_ & _ & Hver & _). unfold is_rel, verN. lia. Qed.
+
+(* the image the reader builds from the invariant's table and pool is the declared one *)
+Lemma image_words st T P m' z :
+  Inv c st T P ->
+  (forall x, find (in_tseg x) T = None -> mget m' x = mget (PositiveMap.empty N) x /\ existsb (in_range x) z = false) ->
+  (forall x t, find (in_tseg x) T = Some t ->
+               word_of m' z x = Some (seg_word wN (is_rel c) (map Z.to_N (ws_data st)) t x)) ->
+  forall x, word_of m' z x = lword (map (lseg_of P) T) x.
+Proof.
+  intros I Hout Hin x. unfold lword. rewrite find_map_lseg.
+  destruct (find (in_tseg x) T) as [t|] eqn:Ef; cbn [option_map].
+  - rewrite (Hin x t Ef). f_equal.
+    assert (Ht : In t T /\ in_tseg x t = true) by (apply find_some in Ef; exact Ef).
+    destruct Ht as [Ht Hx]. destruct t as [[[ss sl] ds] dl]. destruct I.
+    destruct (entry_range c _ _ _ _ _ _ inv_entries Ht) as [(Hsl & Hdl & Hr) _].
+    unfold in_tseg in Hx. cbn [lseg_of l_words l_start]. unfold seg_word, data_then_zeros.
+    rewrite firstn_length, skipn_length, map_length.
+    replace (N.of_nat (Nat.min (N.to_nat dl) (length P - N.to_nat ds)) <=? x - ss)%N with (negb (x - ss <? dl)%N) by lia.
+    destruct (x - ss <? dl)%N eqn:Ej; cbn [negb]; [|reflexivity].
+    rewrite nth_firstn_skipn by lia.
+    replace (N.to_nat ds + N.to_nat (x - ss))%nat with (N.to_nat (ds + (x - ss))) by lia.
+    change 0%N with (Z.to_N 0). rewrite !map_nth.
+    rewrite (inv_data ss sl ds dl (x - ss)%N Ht) by lia.
+    unfold enc. destruct (is_rel c && N.odd (x - ss)); [|reflexivity].
+    replace (ss + (x - ss))%N with x by lia.
+    apply rel_cancel; [apply (cfg_w_nonneg c Hc)|].
+    rewrite Forall_nth in inv_P. destruct (Nat.lt_ge_cases (N.to_nat (ds + (x - ss))) (length P)) as [Hlt|Hge].
+    + apply inv_P. exact Hlt.
+    + lia.
+  - unfold word_of. destruct (Hout x Ef) as [-> ->]. rewrite mget_empty. reflexivity.
+Qed.
+
+Theorem roundtrip thr ops res st file :
+  exec c ops ws_empty = (res, Some st) -> fits_u64 st = true ->
+  write compress c st = WOk file ->
+  exists img L,
+    read_thr thr decompress file = ROk img /\
+    logical ops res [] = Some L /\
+    same_image (i_segs img) (i_mem img) (i_zeros img) L /\
+    i_w img = wN /\ i_ver img = verN /\ i_flags img = flagsN /\
+    consistent_table (i_pool_len img) (i_table img) = true.
+Proof.
+  intros E F W.
+  destruct (exec_inv c Hc ops ws_empty [] [] res st (inv_empty c) E) as (T & P & I & HL).
+  cbn [app map] in I, HL.
+  destruct (write_spec st T P I F) as (wb & Ewb & Hwb & Hpow & HW). rewrite W in HW.
+  destruct HW as (payload & -> & Hpay).
+  destruct cfg_facts as (Hsw & Hw & Hver & Hfl).
+  pose proof (inv_u64 st T P I F) as Hu.
+  set (D := ws_data st) in *. set (DN := map Z.to_N D).
+  assert (HlenD : length DN = length P) by (unfold DN; rewrite map_length; destruct I; assumption).
+  assert (Hcons : consistent_table (N.of_nat (length DN)) T = true).
+  { unfold consistent_table. rewrite HlenD. destruct I. now rewrite inv_entries, inv_disj. }
+  destruct (init_memory_good thr wN (is_rel c) DN T (PositiveMap.empty N)) as (m' & z & EM & Hout & Hin).
+  { unfold consistent_table in Hcons. apply andb_prop in Hcons. apply Hcons. }
+  { destruct I; assumption. }
+  { intros; apply mget_empty. }
+  exists (mkimg wN verN flagsN T (N.of_nat (length DN)) (map seg_of T) m' z), (map (lseg_of P) T).
+  split; [|split; [exact HL | split; [|repeat split; try reflexivity; exact Hcons]]].
+  - (* the parse *)
+    unfold read_thr, file_header.
+    rewrite (take_app header_base_size (le_enc 2 FJ_MAGIC ++ le_enc 2 wN ++ le_enc 8 verN ++ le_enc 8 (N.of_nat (length T))))
+      by (rewrite !app_length, !le_enc_length; reflexivity).
+    destruct (hdr_fields FJ_MAGIC wN verN (N.of_nat (length T))) as (F1 & F2 & F3 & F4). cbv zeta in F1, F2, F3, F4.
+    rewrite F1, F2, F3, F4.
+    assert (HT64 : (N.of_nat (length T) < 2 ^ 64)%N).
+    { destruct I. unfold fits_u64 in F. apply andb_prop in F. destruct F as [_ F2'].
+      rewrite inv_segs, map_length in F2'. change (2 ^ 64)%N with 18446744073709551616%N.
+      change (2 ^ 64) with 18446744073709551616 in F2'. lia. }
+    rewrite (le_dec_enc 2 FJ_MAGIC) by reflexivity.
+    rewrite (le_dec_enc 2 wN) by (change (256 ^ N.of_nat 2)%N with 65536%N; unfold wN; lia).
+    rewrite (le_dec_enc 8 verN) by (rewrite word_bound_64; change (2 ^ 64)%N with 18446744073709551616%N; unfold verN; lia).
+    rewrite (le_dec_enc 8 (N.of_nat (length T))) by (rewrite word_bound_64; exact HT64).
+    replace (max_version <? verN)%N with false by (symmetry; unfold max_version, verN; lia).
+    match goal with |- context [if (verN =? 0)%N then ?a else ?b] =>
+      assert (Eext : (if (verN =? 0)%N then a else b)
+                     = Some (if (verN =? 0)%N then 0%N else flagsN, 0%N, enc_table T ++ payload))
+    end.
+    { unfold file_ext. replace (c_ver c =? 0) with (verN =? 0)%N by (unfold verN; lia).
+      destruct (verN =? 0)%N; [reflexivity|].
+      rewrite (take_app header_extension_size (le_enc 8 flagsN ++ le_enc 4 0%N))
+        by (rewrite app_length, !le_enc_length; reflexivity).
+      destruct (ext_fields flagsN 0%N) as (G1 & G2). cbv zeta in G1, G2. rewrite G1, G2.
+      rewrite (le_dec_enc 8 flagsN) by (rewrite word_bound_64; change (2 ^ 64)%N with 18446744073709551616%N;
+                                        change (2 ^ 64) with 18446744073709551616 in Hfl; unfold flagsN; lia).
+      rewrite (le_dec_enc 4 0%N) by reflexivity. reflexivity. }
+    rewrite Eext. clear Eext.
+    rewrite N.eqb_refl. cbn [negb]. rewrite Hsw. cbn [negb]. rewrite N.eqb_refl. cbn [negb].
+    replace (N.of_nat (length (enc_table T ++ payload)) <? 32 * N.of_nat (length T))%N with false
+      by (symmetry; rewrite app_length, enc_table_length; lia).
+    rewrite Nat2N.id, read_segs_enc by exact Hu.
+    rewrite Ewb.
+    match goal with |- context [if (verN =? 3)%N then ?a else ?b] =>
+      assert (Efd : (if (verN =? 3)%N then a else b) = Some (enc_words wb D))
+    end.
+    { replace (verN =? 3)%N with (c_ver c =? 3) by (unfold verN; lia).
+      destruct (c_ver c =? 3); [apply lzma_roundtrip; exact Hpay | now rewrite Hpay]. }
+    rewrite Efd. clear Efd.
+    rewrite unpack_words_enc; [| exact Hwb | lia |].
+    2:{ destruct I. eapply Forall_impl; [|exact inv_D]. intros x Hx. unfold word_in in Hx.
+        replace (256 ^ Z.of_nat wb) with (2 ^ c_w c); [exact Hx|].
+        apply (f_equal Z.of_N) in Hpow. rewrite !N2Z.inj_pow, nat_N_Z in Hpow. unfold wN in Hpow.
+        rewrite Z2N.id in Hpow by lia. symmetry. exact Hpow. }
+    fold DN. rewrite (consistent_validate _ _ Hcons).
+    rewrite <- is_rel_N. rewrite EM.
+    f_equal. f_equal. destruct (verN =? 0)%N eqn:E0; [|reflexivity].
+    (* version 0 has no flags: the constructor demands flags = 0 *)
+    pose proof Hc as V. unfold cfg_valid in V. repeat (apply andb_prop in V; destruct V as [V ?]).
+    unfold flagsN, verN in *. lia.
+  - (* the image *)
+    split.
+    + cbn [i_segs]. unfold lsegs. rewrite map_map. apply map_ext. intros [[[ss sl] ds] dl]. reflexivity.
+    + cbn [i_mem i_zeros]. apply (image_words st T P m' z I Hout Hin).
+Qed.
+
+End Roundtrip.
+
+(* ---- an accepted file has a consistent segment table ------------------------------------------------------- *)
+
+Theorem read_consistent thr decompress b img :
+  read_thr thr decompress b = ROk img ->
+  consistent_table (i_pool_len img) (i_table img) = true /\
+  supported_width (i_w img) = true /\ (i_ver img <= 3)%N /\ i_segs img = map seg_of (i_table img).
+Proof.
+  unfold read_thr.
+  destruct (take header_base_size b) as [[h r1]|]; [|discriminate].
+  destruct (max_version <? u_at 4 8 h)%N eqn:Ev; [discriminate|].
+  destruct (if (u_at 4 8 h =? 0)%N then Some (0%N, 0%N, r1)
+            else match take header_extension_size r1 with
+                 | Some (e0, r2) => Some (u_at 0 8 e0, u_at 8 4 e0, r2) | None => None end)
+    as [[[flags reserved] r2]|]; [|discriminate].
+  destruct (negb (u_at 0 2 h =? FJ_MAGIC)%N); [discriminate|].
+  destruct (negb (supported_width (u_at 2 2 h))) eqn:Ew; [discriminate|].
+  destruct (negb (reserved =? 0)%N); [discriminate|].
+  destruct (N.of_nat (length r2) <? 32 * u_at 12 8 h)%N; [discriminate|].
+  destruct (read_segs (N.to_nat (u_at 12 8 h)) r2) as [[table payload]|]; [|discriminate].
+  destruct (word_bytes (u_at 2 2 h)) as [wb|]; [|discriminate].
+  destruct (if (u_at 4 8 h =? 3)%N then decompress payload else Some payload) as [fd|]; [|discriminate].
+  destruct (unpack_words (length fd) wb fd) as [data| |]; try discriminate.
+  destruct (validate_segments table) eqn:Eval; [discriminate|].
+  destruct (init_memory thr (u_at 2 2 h) ((u_at 4 8 h =? 2)%N || (u_at 4 8 h =? 3)%N) data
+                        (N.of_nat (length data)) (PositiveMap.empty N) table) as [segs m z| |] eqn:Em; try discriminate.
+  intros H. injection H as <-. cbn [i_pool_len i_table i_w i_ver i_segs].
+  destruct (init_memory_weak _ _ _ _ _ _ _ _ _ Em) as [Hweak Hsegs].
+  split; [|split; [now apply negb_false_iff in Ew | split; [unfold max_version in Ev; lia | exact Hsegs]]].
+  unfold consistent_table. rewrite (validate_ok_disjoint _ Eval), andb_true_r.
+  apply forallb_forall. intros t Ht.
+  pose proof (validate_ok_shape _ t Eval Ht) as Hs.
+  rewrite forallb_forall in Hweak. specialize (Hweak t Ht).
+  destruct t as [[[ss sl] ds] dl]. unfold seg_shape_bad in Hs. unfold tentry_weak in Hweak. unfold tentry_ok.
+  apply andb_prop in Hweak. destruct Hweak as [W1 W2].
+  repeat (apply orb_false_elim in Hs; destruct Hs as [Hs ?]).
+  rewrite !N_odd_mod2 in *. rewrite !N_even_mod2 in *. lia.
+Qed.
+
+(* ---- corollaries of the round trip ---------------------------------------------------------------------------- *)
+
+Section Corollaries.
+Variable compress : bytes -> option bytes.
+Variable decompress : bytes -> option bytes.
+Hypothesis lzma_roundtrip : forall x z, compress x = Some z -> decompress z = Some x.
+
+(* the declared image is a function of the calls and of which of them were accepted, so two versions that
+   accept the same calls load the same image *)
+Theorem version_independent c1 c2 thr ops res st1 st2 f1 f2 i1 i2 :
+  cfg_valid c1 = true -> cfg_valid c2 = true ->
+  exec c1 ops ws_empty = (res, Some st1) -> exec c2 ops ws_empty = (res, Some st2) ->
+  fits_u64 st1 = true -> fits_u64 st2 = true ->
+  write compress c1 st1 = WOk f1 -> write compress c2 st2 = WOk f2 ->
+  read_thr thr decompress f1 = ROk i1 -> read_thr thr decompress f2 = ROk i2 ->
+  i_segs i1 = i_segs i2 /\ forall a, word_of (i_mem i1) (i_zeros i1) a = word_of (i_mem i2) (i_zeros i2) a.
+Proof.
+  intros V1 V2 E1 E2 F1 F2 W1 W2 R1 R2.
+  destruct (roundtrip compress decompress lzma_roundtrip c1 V1 thr ops res st1 f1 E1 F1 W1)
+    as (j1 & L1 & R1' & HL1 & [S1 G1] & _).
+  destruct (roundtrip compress decompress lzma_roundtrip c2 V2 thr ops res st2 f2 E2 F2 W2)
+    as (j2 & L2 & R2' & HL2 & [S2 G2] & _).
+  rewrite R1 in R1'. injection R1' as <-. rewrite R2 in R2'. injection R2' as <-.
+  rewrite HL1 in HL2. injection HL2 as <-.
+  split; [now rewrite S1, S2 | intros a; now rewrite G1, G2].
+Qed.
+
+(* dense (explicit zeros) and lazy (zero ranges) tails denote the same image: whatever the threshold, the
+   image read from a written file answers the same at every address *)
+Theorem zero_tail c thr1 thr2 ops res st file i1 i2 :
+  cfg_valid c = true -> exec c ops ws_empty = (res, Some st) -> fits_u64 st = true ->
+  write compress c st = WOk file ->
+  read_thr thr1 decompress file = ROk i1 -> read_thr thr2 decompress file = ROk i2 ->
+  i_segs i1 = i_segs i2 /\ forall a, word_of (i_mem i1) (i_zeros i1) a = word_of (i_mem i2) (i_zeros i2) a.
+Proof.
+  intros V E F W R1 R2.
+  destruct (roundtrip compress decompress lzma_roundtrip c V thr1 ops res st file E F W)
+    as (j1 & L1 & R1' & HL1 & [S1 G1] & _).
+  destruct (roundtrip compress decompress lzma_roundtrip c V thr2 ops res st file E F W)
+    as (j2 & L2 & R2' & HL2 & [S2 G2] & _).
+  rewrite R1 in R1'. injection R1' as <-. rewrite R2 in R2'. injection R2' as <-.
+  rewrite HL1 in HL2. injection HL2 as <-.
+  split; [now rewrite S1, S2 | intros a; now rewrite G1, G2].
+Qed.
+
+(* an input the format cannot represent is refused with the library's error: no call and no write ends in
+   any other exception, and whatever was accepted is representable *)
+Theorem writer_total c ops :
+  cfg_valid c = true ->
+  snd (exec c ops ws_empty) <> None /\
+  forall res st, exec c ops ws_empty = (res, Some st) -> fits_u64 st = true ->
+                 forall e p, write compress c st <> WRaw e p.
+Proof.
+  intros V. split; [apply (exec_no_raw c V ops ws_empty [] []); apply inv_empty|].
+  intros res st E F e p.
+  destruct (exec_inv c V ops ws_empty [] [] res st (inv_empty c) E) as (T & P & I & _).
+  destruct (write_spec compress c V st T P I F) as (wb & _ & _ & _ & HW).
+  intros H. rewrite H in HW. exact HW.
+Qed.
+
+End Corollaries.
+
+Lemma in_firstn_l (A : Type) (x : A) n l : In x (firstn n l) -> In x l.
+Proof. intros H. rewrite <- (firstn_skipn n l). apply in_or_app. now left. Qed.
+Lemma in_skipn_l (A : Type) (x : A) n l : In x (skipn n l) -> In x l.
+Proof. intros H. rewrite <- (firstn_skipn n l). apply in_or_app. now right. Qed.
+
+Lemma lseg_of_representable c T P st :
+  cfg_valid c = true -> Inv c st T P -> representable (Z.to_N (c_w c)) (map (lseg_of P) T) = true.
+Proof.
+  intros V I. unfold representable. apply andb_true_intro. split.
+  - apply forallb_forall. intros s Hs. apply in_map_iff in Hs. destruct Hs as ([[[ss sl] ds] dl] & <- & Ht).
+    destruct I. destruct (entry_range c _ _ _ _ _ _ inv_entries Ht) as [(H1 & H2 & H3) (H4 & H5 & H6)].
+    rewrite Forall_forall in inv_end. specialize (inv_end _ Ht). cbn in inv_end.
+    unfold lseg_representable. cbn [lseg_of l_len l_start l_words].
+    rewrite firstn_length, skipn_length, map_length.
+    replace (N.of_nat (Nat.min (N.to_nat dl) (length P - N.to_nat ds))) with dl by lia.
+    rewrite H4, H5, H6.
+    replace (0 <? sl)%N with true by (symmetry; lia).
+    replace (dl <=? sl)%N with true by (symmetry; lia).
+    replace (ss <? 2 ^ 64)%N with true by (symmetry; lia).
+    replace (sl <? 2 ^ 64)%N with true by (symmetry; lia).
+    cbn [andb]. rewrite !andb_true_r.
+    apply forallb_forall. intros x Hx. apply in_firstn_l in Hx.
+    assert (Hx' : In x (map Z.to_N P)) by (eapply in_skipn_l; exact Hx).
+    apply in_map_iff in Hx'. destruct Hx' as (p & <- & Hp).
+    rewrite Forall_forall in inv_P. specialize (inv_P p Hp). unfold word_in in inv_P.
+    apply N.ltb_lt. apply N2Z.inj_lt. rewrite N2Z.inj_pow, !Z2N.id; try lia. apply (cfg_w_nonneg c V).
+  - rewrite pairwise_map. destruct I. rewrite <- inv_disj. apply pairwise_ext.
+    intros [[[s1 l1] a1] b1] [[[s2 l2] a2] b2]. reflexivity.
+Qed.
+
+Theorem accepted_representable c ops res st :
+  cfg_valid c = true -> exec c ops ws_empty = (res, Some st) ->
+  exists L, logical ops res [] = Some L /\ representable (Z.to_N (c_w c)) L = true.
+Proof.
+  intros V E.
+  destruct (exec_inv c V ops ws_empty [] [] res st (inv_empty c) E) as (T & P & I & HL).
+  cbn [app map] in I, HL. exists (map (lseg_of P) T). split; [exact HL|].
+  eapply lseg_of_representable; eassumption.
+Qed.
